@@ -13,6 +13,8 @@ import (
 func init() { Registry["C23"] = checkC23 }
 
 func checkC23(r *core.Run, p *core.Program) {
+	r.Rule("C23.buffer-capacity", "data is copied into the CTE writer's scratch buffer only after the buffer has been made large enough for it: every copy(…Buffer…, src) is preceded, on every path, by ExpandBuffer(len(src)) (or a variable holding len(src)), and its result is not used to shorten what is flushed (copy() silently truncates to the destination's length, so a large string or chunk would lose its tail).")
+	checkC23BufferCapacity(r, p)
 	r.Rule("C23.units", "in the CTE array engine chunk lengths (element counts) and delivered data lengths (byte counts) are never added, subtracted or compared without conversion by the element width.")
 	r.Rule("C23.partial-element", "the carry-over of a partial element between data events is exact: the leftover holds strictly less than one element (the `not enough to complete it` test is len(data) < missing, strict), a completed element is emitted and counted once and the leftover emptied, the tail of a data event that does not fill an element (len & (width-1) bytes) goes to the leftover and is cut off the data that is emitted, and an empty data event returns before any output.")
 	r.Rule("C23.begin-resets", "every entry point that begins an array in the engine (BeginArray, BeginMedia, BeginCustomText, BeginCustomBinary) calls reset() first, and reset() re-initialises every field the engine modifies while an array is encoded (C16 reset engine).")
@@ -289,9 +291,70 @@ func c23Partial(r *core.Run, p *core.Program, f *fn) {
 	}
 	r.Check("C23.partial-element", f.Name()+"|empty data event returns before any output", f.Decl.Pos(), emptyFirst,
 		"AddArrayData does not return at once for an empty data event: kinds whose writer emits a separator per data event then write a stray separator, so the text depends on how data was split")
+	// the carry-over logic may sit in an unexported helper of the engine that is handed the data: each such helper
+	// body is analysed with its own parameter standing for the data event
+	type unit struct {
+		body *ast.BlockStmt
+		data types.Object
+	}
+	units := []unit{{f.Decl.Body, data}}
+	inspectCalls(info, f.Decl.Body, func(call *ast.CallExpr, cal *types.Func) {
+		if cal == nil || cal.Exported() || cal.Pkg() != f.Pkg.Types || recvNamed(cal) == nil || recvNamed(cal) != recvNamed(f.Obj) {
+			return
+		}
+		hd := p.FuncDecl(cal)
+		if hd == nil || hd.Body == nil {
+			return
+		}
+		hs := cal.Type().(*types.Signature)
+		for i, arg := range call.Args {
+			if i < hs.Params().Len() && objOf(info, arg) == data {
+				// only helpers that keep part of the data in a field of the engine (the carry-over), not the element writers
+				hp := hs.Params().At(i)
+				keeps := false
+				ast.Inspect(hd.Body, func(n ast.Node) bool {
+					as, ok := n.(*ast.AssignStmt)
+					if !ok || len(as.Lhs) != 1 || len(as.Rhs) != 1 {
+						return true
+					}
+					if c2, ok := as.Rhs[0].(*ast.CallExpr); ok && len(c2.Args) == 2 {
+						if id, ok := c2.Fun.(*ast.Ident); ok && id.Name == "append" {
+							if fv := fieldOf(info, as.Lhs[0]); fv != nil && fieldOf(info, c2.Args[0]) == fv && rootObj(info, c2.Args[1]) == hp {
+								keeps = true
+							}
+						}
+					}
+					return true
+				})
+				if keeps {
+					units = append(units, unit{hd.Body, hp})
+				}
+			}
+		}
+	})
+	isLenOfData := func(e ast.Expr) bool {
+		for _, u := range units {
+			if v, ok := u.data.(*types.Var); ok && isLenOf(info, e, v) {
+				return true
+			}
+		}
+		return false
+	}
+	isData := func(o types.Object) bool {
+		for _, u := range units {
+			if o != nil && o == u.data {
+				return true
+			}
+		}
+		return false
+	}
+	allBodies := &ast.BlockStmt{}
+	for _, u := range units {
+		allBodies.List = append(allBodies.List, u.body)
+	}
 	// (2) find `fillCount := width - leftoverLength` and the guard `len(data) OP fillCount` that appends everything and returns
 	var fillObj types.Object
-	ast.Inspect(f.Decl.Body, func(n ast.Node) bool {
+	ast.Inspect(allBodies, func(n ast.Node) bool {
 		as, ok := n.(*ast.AssignStmt)
 		if !ok || len(as.Lhs) != 1 || len(as.Rhs) != 1 {
 			return true
@@ -311,7 +374,7 @@ func c23Partial(r *core.Run, p *core.Program, f *fn) {
 	}
 	guardOK, guardFound := false, false
 	var guardPos token.Pos
-	ast.Inspect(f.Decl.Body, func(n ast.Node) bool {
+	ast.Inspect(allBodies, func(n ast.Node) bool {
 		ifs, ok := n.(*ast.IfStmt)
 		if !ok {
 			return true
@@ -320,8 +383,8 @@ func c23Partial(r *core.Run, p *core.Program, f *fn) {
 		if !ok {
 			return true
 		}
-		lenLeft := isLenOf(info, be.X, data) && objOf(info, be.Y) == fillObj
-		lenRight := isLenOf(info, be.Y, data) && objOf(info, be.X) == fillObj
+		lenLeft := isLenOfData(be.X) && objOf(info, be.Y) == fillObj
+		lenRight := isLenOfData(be.Y) && objOf(info, be.X) == fillObj
 		if !lenLeft && !lenRight {
 			return true
 		}
@@ -347,14 +410,14 @@ func c23Partial(r *core.Run, p *core.Program, f *fn) {
 	// (3) no byte of a data event is dropped: every reslice of data that cuts off a prefix or a suffix is preceded, in the
 	// same block, by an append of exactly that part to the leftover field; an emitted leftover is emptied and counted.
 	var leftover *types.Var
-	ast.Inspect(f.Decl.Body, func(n ast.Node) bool {
+	ast.Inspect(allBodies, func(n ast.Node) bool {
 		as, ok := n.(*ast.AssignStmt)
 		if !ok || len(as.Lhs) != 1 || len(as.Rhs) != 1 {
 			return true
 		}
 		if call, ok := as.Rhs[0].(*ast.CallExpr); ok {
 			if id, ok := call.Fun.(*ast.Ident); ok && id.Name == "append" && len(call.Args) == 2 {
-				if fv := fieldOf(info, as.Lhs[0]); fv != nil && fieldOf(info, call.Args[0]) == fv && rootObj(info, call.Args[1]) == data {
+				if fv := fieldOf(info, as.Lhs[0]); fv != nil && fieldOf(info, call.Args[0]) == fv && isData(rootObj(info, call.Args[1])) {
 					leftover = fv
 				}
 			}
@@ -378,13 +441,14 @@ func c23Partial(r *core.Run, p *core.Program, f *fn) {
 			case *ast.ForStmt:
 				blocks(s.Body.List)
 			case *ast.AssignStmt:
-				if len(s.Lhs) != 1 || len(s.Rhs) != 1 || objOf(info, s.Lhs[0]) != data {
+				if len(s.Lhs) != 1 || len(s.Rhs) != 1 || !isData(objOf(info, s.Lhs[0])) {
 					continue
 				}
 				sl, ok := stripParens(s.Rhs[0]).(*ast.SliceExpr)
-				if !ok || objOf(info, sl.X) != data {
+				if !ok || objOf(info, sl.X) != objOf(info, s.Lhs[0]) {
 					continue
 				}
+				data := objOf(info, s.Lhs[0])
 				nCuts++
 				// the dropped part
 				var dropped string
@@ -438,7 +502,9 @@ func c23Partial(r *core.Run, p *core.Program, f *fn) {
 			}
 		}
 	}
-	blocks(body)
+	for _, u := range units {
+		blocks(u.body.List)
+	}
 	r.Floor("C23.partial-element", "places where part of a data event is cut off", nCuts, 2)
 }
 
@@ -607,4 +673,93 @@ func c23Bits(r *core.Run, p *core.Program) {
 	r.Check("C23.bit-order", enc.Name()+"|partial byte prints the remaining element count", enc.Decl.Pos(),
 		strings.Contains(src, "count := _this.remainingChunkElements") && strings.Contains(src, "_this.remainingChunkElements -= count"),
 		"the number of characters printed for the last partial byte is not the remaining element count")
+}
+
+func checkC23BufferCapacity(r *core.Run, p *core.Program) {
+	pkg := p.Pkg("cte")
+	info := pkg.TypesInfo
+	n := 0
+	for _, f := range funcsOf(pkg) {
+		var stack []ast.Node
+		ast.Inspect(f.Decl.Body, func(nd ast.Node) bool {
+			if nd == nil {
+				stack = stack[:len(stack)-1]
+				return true
+			}
+			stack = append(stack, nd)
+			call, ok := nd.(*ast.CallExpr)
+			if !ok || len(call.Args) != 2 {
+				return true
+			}
+			id, ok := call.Fun.(*ast.Ident)
+			if !ok || id.Name != "copy" {
+				return true
+			}
+			if _, isB := info.Uses[id].(*types.Builtin); !isB {
+				return true
+			}
+			// destination rooted at a field named Buffer
+			dst := stripParens(call.Args[0])
+			for {
+				if se, ok := dst.(*ast.SliceExpr); ok {
+					dst = stripParens(se.X)
+					continue
+				}
+				break
+			}
+			fld := fieldOf(info, dst)
+			if fld == nil || fld.Name() != "Buffer" {
+				return true
+			}
+			n++
+			src := exprStr(stripParens(call.Args[1]))
+			// a dominating ExpandBuffer(len(src)) / ExpandBuffer(v) with v := len(src)
+			expanded := false
+			ast.Inspect(f.Decl.Body, func(k ast.Node) bool {
+				ec, ok := k.(*ast.CallExpr)
+				if !ok || ec.Pos() >= call.Pos() || len(ec.Args) != 1 {
+					return true
+				}
+				c := callee(info, ec)
+				if c == nil || c.Name() != "ExpandBuffer" {
+					return true
+				}
+				arg := stripParens(ec.Args[0])
+				if aid, isId := arg.(*ast.Ident); isId {
+					if init := singleInit(info, f, info.ObjectOf(aid)); init != nil {
+						arg = stripParens(init)
+					} else {
+						// n = len(str) assigned (not defined): look for that assignment
+						ast.Inspect(f.Decl.Body, func(m ast.Node) bool {
+							if as, ok := m.(*ast.AssignStmt); ok && len(as.Lhs) == 1 && len(as.Rhs) == 1 && objOf(info, as.Lhs[0]) == info.ObjectOf(aid) && as.Pos() < ec.Pos() {
+								arg = stripParens(as.Rhs[0])
+							}
+							return true
+						})
+					}
+				}
+				if lc, ok := arg.(*ast.CallExpr); ok && len(lc.Args) == 1 {
+					if lid, ok := lc.Fun.(*ast.Ident); ok && lid.Name == "len" && exprStr(stripParens(lc.Args[0])) == src {
+						// executed on every path to the copy: not nested in a branch the copy is outside of
+						expanded = true
+					}
+				}
+				return true
+			})
+			usesResult := false
+			if len(stack) >= 2 {
+				switch par := stack[len(stack)-2].(type) {
+				case *ast.AssignStmt:
+					usesResult = true
+					_ = par
+				case *ast.ReturnStmt, *ast.BinaryExpr, *ast.CallExpr:
+					usesResult = true
+				}
+			}
+			r.Check("C23.buffer-capacity", f.Name()+"|copy into Buffer", call.Pos(), expanded && !usesResult,
+				"`"+exprStr(call)+"` is not preceded by ExpandBuffer(len("+src+")) (or its result decides how much is flushed): copy() stops at the buffer's current length, so the tail of a long string or chunk is silently dropped")
+			return true
+		})
+	}
+	r.Floor("C23.buffer-capacity", "copies into the writer's buffer", n, 1)
 }
